@@ -22,6 +22,13 @@ CHECKS = {
               'reference multiset (List as multiset, Set as set, ties as one-of). A mismatch is reported unless it is fully explained by '
               'a deviation switch that corresponds to an open entry of known_findings.json.'),
         note='trusted: reference evaluator (DESIGN 4.21); zero-key aggregation over no solution is not judged'),
+    'C03': dict(
+        category='exploration', design_ref='DESIGN.md 4/C03',
+        technique='runtime monitor: recursive programs run through the real pipeline (script path and concertina workflow path) on SQLite vs an iterated reference operator; the unfolding style is observed through a wrapper on RecursiveAnalysis',
+        text=('Recursive programs from 9 templates at many depths are executed for real (iterative plans through ExecuteLogicaProgram) and compared '
+              'with T^(depth+1)(empty) computed by iterating the reference evaluator: exactly for self-recursive, flat and iterative unfolding, '
+              'as lower/upper bounds (T^(depth+1) and the least fixpoint) for vertical unfolding of a larger cover.'),
+        note='trusted: reference iteration (vf/ref/recursion.py); heavy shapes limited in depth for non-iterative unfolding (exponential SQL size)'),
     'C07': dict(
         category='exploration', design_ref='DESIGN.md 4/C07',
         technique='runtime monitor: metamorphic comparison of a program and its permuted / renamed variants on the real pipeline + SQLite, admissible differences taken from the reference evaluator',
